@@ -28,8 +28,8 @@ var (
 	tByte   = types.Typ[types.Uint8]
 )
 
-func ival(t string) Val  { return Val{tInt, []string{t}} }
-func bval(t string) Val  { return Val{tBool, []string{t}} }
+func ival(t string) Val       { return Val{tInt, []string{t}} }
+func bval(t string) Val       { return Val{tBool, []string{t}} }
 func sval(a, o, n string) Val { return Val{tString, []string{a, o, n}} }
 
 type unsupported struct{ msg string }
